@@ -239,6 +239,18 @@ def _terminal_kinds(logs):
 
 
 # ---------------------------------------------------------------------------------------------
+def _canon(lines):
+    """Script normal form: an empty reaction list at the end of an observer's script is the same program as no
+    entry (the observer does nothing on that receipt, whether or not the receipt happens).  Needed where the model
+    leaves open whether a receipt happens at all (dispose() from inside a callback), so that both resolutions of
+    one program are grouped under one key."""
+    for ln in lines:
+        for per_obs in ln["scn"]["body"]:
+            while per_obs and not per_obs[-1]:
+                per_obs.pop()
+    return lines
+
+
 def export(ck: core.Check, kind: str, consts: Dict[str, Any], label: str, simulate: Optional[str] = None,
            depth: Optional[int] = None, timeout: int = 900, xmx: str = "2g"):
     c = dict(consts)
@@ -247,7 +259,7 @@ def export(ck: core.Check, kind: str, consts: Dict[str, Any], label: str, simula
     res = tlc.run("Subjects", cfg, workers=1, timeout=timeout, simulate=simulate, depth=depth,
                   seed=(ck.seed + 11) if simulate else None, xmx=xmx, allow_violation=False)
     ck.add_tlc(res, label)
-    return res.lines
+    return _canon(res.lines)
 
 
 def _job(args):
@@ -274,12 +286,14 @@ def generic_replay(rec) -> int:
 # ---------------------------------------------------------------------------------------------
 # the runner shared by C20 / C21 / C23
 ALL_CB = {"unsub", "sub", "next", "error", "completed"}
+CB_DISPOSE = {"unsub", "sub", "dispose"}
 SIM_TOP = TOP_ALL - {"dispose", "subnh"}    # simulation digs into long live histories; disposal is covered exhaustively
 TIERS = {
     "quick": {
         "exhaustive": [
             ("callbacks unsubscribe/subscribe", dict(MaxCmds=5, MaxSubs=3, MaxBody=1, CbCmds={"unsub", "sub"}, TopCmds=TOP_ALL)),
             ("callbacks also emit", dict(MaxCmds=4, MaxSubs=3, MaxBody=1, CbCmds=ALL_CB, TopCmds=TOP_ALL - {"subnh"})),
+            ("callbacks dispose the subject", dict(MaxCmds=5, MaxSubs=3, MaxBody=1, CbCmds={"dispose"}, TopCmds=TOP_ALL - {"subnh", "dispose", "unsub"})),
         ],
         "simulate": (dict(MaxCmds=10, MaxSubs=4, MaxBody=2, CbCmds={"unsub", "sub"}, TopCmds=SIM_TOP), 600, 250),
     },
@@ -288,6 +302,7 @@ TIERS = {
             ("callbacks unsubscribe/subscribe", dict(MaxCmds=6, MaxSubs=3, MaxBody=1, CbCmds={"unsub", "sub"}, TopCmds=TOP_ALL)),
             ("callbacks unsubscribe/subscribe/emit, two calls per callback", dict(MaxCmds=5, MaxSubs=3, MaxBody=2, CbCmds=ALL_CB, TopCmds=TOP_ALL)),
             ("four subscribers", dict(MaxCmds=6, MaxSubs=4, MaxBody=1, CbCmds={"unsub"}, TopCmds=TOP_ALL - {"subnh"})),
+            ("callbacks dispose the subject", dict(MaxCmds=6, MaxSubs=3, MaxBody=2, CbCmds=CB_DISPOSE, TopCmds=TOP_ALL - {"subnh", "dispose"})),
         ],
         "simulate": (dict(MaxCmds=14, MaxSubs=5, MaxBody=3, CbCmds={"unsub", "sub"}, TopCmds=SIM_TOP), 20000, 400),
     },
